@@ -221,6 +221,16 @@ type c01Harness struct {
 	rnd      *rand.Rand
 	dead     bool // (under the trace lock) the watchdog gave the instance up: nothing more is recorded
 	blind    bool // (under the trace lock) Service.attested could not be read (attestedMu never came free)
+	// sigOf reads a signature back (validator, committee, data); nil: the fake signer's own encoding.  The wired
+	// stack (zz_verif_c01_wired_test.go) has real BLS signatures and looks them up in what its signer recorded.
+	sigOf func(phase0.BLSSignature) verifsupport.Ev
+}
+
+func (h *c01Harness) sigEv(s phase0.BLSSignature) verifsupport.Ev {
+	if h.sigOf != nil {
+		return h.sigOf(s)
+	}
+	return c01SigEv(s)
 }
 
 // c01HungBudget: after this many hung scenarios in one batch the remaining scenarios are not run (each
@@ -578,7 +588,7 @@ func (p *c01Submitter) SubmitAttestations(ctx context.Context, attestations []*p
 				"size":  a.AggregationBits.Len(),
 				"bits":  bits,
 				"data":  c01DataEv(uint64(a.Data.Slot), uint64(a.Data.Source.Epoch), uint64(a.Data.Target.Epoch), c01RootID(a.Data.BeaconBlockRoot, a.Data.Source.Root, a.Data.Target.Root)),
-				"sig":   c01SigEv(a.Signature),
+				"sig":   p.h.sigEv(a.Signature),
 			})
 		}
 		return atts
